@@ -482,6 +482,30 @@ func concurrentRun(args []string) {
 			}
 		}
 
+		// the versions of ONE document: resolution models whose published operations share one backing array, as the
+		// operation applier hands them out (every result takes over the slice of the state it was applied to) - in
+		// anchoring order, as a store returns them, with operations that were anchored twice (the same canonical reference)
+		{
+			tr := didtransformer.New(didtransformer.WithIncludePublishedOperations(true), didtransformer.WithIncludeUnpublishedOperations(true))
+			chain := make([]*operation.AnchoredOperation, 0, 16)
+
+			for i, ref := range []string{"c0", "c1", "c1", "c2", "c3", "c3", "c4", "c5", "c5", "c6"} {
+				chain = append(chain, &operation.AnchoredOperation{Type: "update", UniqueSuffix: "versions", TransactionTime: uint64(1 + i/2), TransactionNumber: uint64(i),
+					CanonicalReference: ref, OperationRequest: []byte(fmt.Sprintf(`{"n":%d}`, i))})
+			}
+
+			for k := 2; k <= len(chain); k++ {
+				k := k
+
+				jobs = append(jobs, job{fmt.Sprintf("DIDTransformer(versions)#%d", k), func() interface{} {
+					rm := &protocol.ResolutionModel{Doc: document.Document{"service": []interface{}{cenv.svcJSON(CEnt{1, 1})}}, PublishedOperations: chain[:k]}
+					res, e := tr.TransformDocument(rm, protocol.TransformationInfo{"id": "did:sidetree:versions", "published": true})
+
+					return []interface{}{res, errStr(e)}
+				}})
+			}
+		}
+
 		// long-form DIDs: create (deterministic), read, resolve
 		for d := 1; d <= 4; d++ {
 			d := d
